@@ -371,6 +371,7 @@ func (c *Ctx) ord9() {
 	ren := c.acc("ORD-9", sv, "Rename-only-behind-nil-write-and-nil-Sync")
 	rem := c.acc("ORD-9", sv, "failure-after-Create⇒spool-removed")
 	tgt := c.acc("ORD-9", sv, "only-the-spool-file-is-opened-for-writing")
+	rmt := c.acc("ORD-9", sv, "failure-cleanup-removes-the-spool-file-only")
 	for _, p := range c.Paths("ORD-9", sv) {
 		if p.End != pathx.KReturn {
 			continue
@@ -432,6 +433,21 @@ func (c *Ctx) ord9() {
 				}
 			case "os.Remove":
 				idx["remove"] = i
+				// what is removed must be the spool file
+				okR := false
+				switch a := e.Args[0].(type) {
+				case *ssa.Call:
+					if f := a.Call.StaticCallee(); f != nil {
+						if f.Name() == "spoolFile" || stdName(f) == "(*os.File).Name" {
+							okR = true
+						}
+					}
+				}
+				if okR {
+					rmt.pass()
+				} else {
+					rmt.fail(p, i, "the failure path removes %s instead of the spool file: a failed overwrite deletes the previous value of the key", Expr(e.Args[0]))
+				}
 			}
 		}
 		ci, created := idx["create"]
@@ -467,6 +483,7 @@ func (c *Ctx) ord9() {
 	ren.done(1, "Rename lies behind nil WriteTo, nil Sync and Close")
 	rem.done(1, "every failure after Create removes the spool file")
 	tgt.done(1, "the only file opened for writing is the spool file of the key")
+	rmt.done(1, "os.Remove is only applied to the spool file")
 
 	// no other function writes files
 	n := 0
